@@ -1870,4 +1870,540 @@ theorem emptyRoot_ne_leaf_on {H : HashFn} {S : Bytes → Prop} (hi : NoCollOn H 
   simp [leafInput] at this
 
 
+/-- inputs of one single-leaf step, leaf in the right child -/
+theorem innerInputs_single_right {H : HashFn} {ign : Bool} {fuel : Nat} {x : NsHash} {proof : List NsHash}
+    {start size offset : Nat} {right sib h : NsHash} {lv1 pf1 pf' : List NsHash}
+    (split : Nat) (hsplit : split = nextSmallerPo2 size)
+    (hge : split + offset ≤ start)
+    (hrr : (size - split = 1 ∧ right = x ∧ lv1 = [] ∧ pf1 = proof) ∨
+      (size - split ≠ 1 ∧
+        checkRangeProofInner H ign fuel [x] proof start (size - split) (offset + split) = .ok (right, lv1, pf1)))
+    (htl : takeLast? pf1 = some (sib, pf')) (hn : hashNodes H ign sib right = .ok h) :
+    innerInputs H ign (fuel + 1) [x] proof start size offset =
+      (if size - split = 1 then []
+       else innerInputs H ign fuel [x] proof start (size - split) (offset + split)) ++
+        [nodeInput sib right] := by
+  subst hsplit
+  conv => lhs; unfold innerInputs
+  have h0 : ¬ ([x].length + start = 0) := by simp
+  have hnl : ¬ (start < nextSmallerPo2 size + offset) := by omega
+  have hge' : [x].length + start - 1 ≥ nextSmallerPo2 size + offset := by simp; omega
+  simp only [h0, ↓reduceIte, hge', hnl]
+  rcases hrr with ⟨h1, rfl, rfl, rfl⟩ | ⟨h1, hrec⟩
+  · simp only [h1, ↓reduceIte, takeLast?, List.getLast?_singleton, List.dropLast_singleton]
+    simp only [takeLast?] at htl
+    cases hg : pf1.getLast? with
+    | none => simp [hg] at htl
+    | some y =>
+      simp only [hg, Option.some.injEq, Prod.mk.injEq] at htl
+      simp [htl.1]
+  · simp only [h1, ↓reduceIte, hrec, htl, List.append_nil]
+
+/-- inputs of one single-leaf step, leaf in the left child -/
+theorem innerInputs_single_left {H : HashFn} {ign : Bool} {fuel : Nat} {x : NsHash} {proof : List NsHash}
+    {start size offset : Nat} {left sib h : NsHash} {lv' pf1 pf' : List NsHash}
+    (split : Nat) (hsplit : split = nextSmallerPo2 size)
+    (hlt : start < split + offset)
+    (htl : takeLast? proof = some (sib, pf1))
+    (hll : (split = 1 ∧ left = x ∧ lv' = [] ∧ pf' = pf1) ∨
+      (split ≠ 1 ∧ checkRangeProofInner H ign fuel [x] pf1 start split offset = .ok (left, lv', pf')))
+    (hn : hashNodes H ign left sib = .ok h) :
+    innerInputs H ign (fuel + 1) [x] proof start size offset =
+      (if split = 1 then [] else innerInputs H ign fuel [x] pf1 start split offset) ++
+        [nodeInput left sib] := by
+  subst hsplit
+  conv => lhs; unfold innerInputs
+  have h0 : ¬ ([x].length + start = 0) := by simp
+  have hge' : ¬ ([x].length + start - 1 ≥ nextSmallerPo2 size + offset) := by simp; omega
+  simp only [h0, ↓reduceIte, hge', htl, hlt, List.nil_append]
+  rcases hll with ⟨h1, rfl, _, _⟩ | ⟨h1, hrec⟩
+  · simp [h1, takeLast?]
+  · simp only [h1, ↓reduceIte, hrec]
+
+/-- one step of the perfect-tree root computation, with the hashed input -/
+theorem perfectInputs_succ {H : HashFn} {ign : Bool} {j : Nat} {L : List NsHash} {h : NsHash}
+    (e : perfectRoot H ign (j + 1) L = .ok h) :
+    ∃ l r, perfectRoot H ign j (L.take (2 ^ j)) = .ok l ∧ perfectRoot H ign j (L.drop (2 ^ j)) = .ok r ∧
+      hashNodes H ign l r = .ok h ∧
+      perfectInputs H ign (j + 1) L =
+        perfectInputs H ign j (L.take (2 ^ j)) ++ perfectInputs H ign j (L.drop (2 ^ j)) ++ [nodeInput l r] := by
+  obtain ⟨l, r, hl, hr, hn⟩ := perfectRoot_succ e
+  refine ⟨l, r, hl, hr, hn, ?_⟩
+  conv => lhs; unfold perfectInputs
+  simp only [hl, hr]
+
+theorem perfectRoot_succ_ne_leaf_on {H : HashFn} {S : Bytes → Prop} (hi : NoCollOn H S) {ign : Bool} {j : Nat}
+    {L : List NsHash} {ns d : Bytes} (hS : S (leafInput ns d)) (hT : ∀ y ∈ perfectInputs H ign (j + 1) L, S y)
+    (e : perfectRoot H ign (j + 1) L = .ok (hashLeaf H ns d)) : False := by
+  obtain ⟨l, r, _, _, hn, hPI⟩ := perfectInputs_succ e
+  exact leaf_ne_node_on hi hn hS (hT _ (by rw [hPI]; simp)) rfl
+
+theorem IsLeafOn.WF {H : HashFn} {S : Bytes → Prop} {x : NsHash} (h : IsLeafOn H S x) (hk : HashLen H) : x.WF :=
+  h.isLeaf.WF hk
+
+/-- shallow verifier subtree against a deeper perfect real tree: impossible (relative collision-freeness) -/
+theorem inner_single_shallow_on {H : HashFn} {S : Bytes → Prop} (hk : HashOKOn H S) {ign ign' : Bool} :
+    ∀ (fuel j : Nat) {x : NsHash} {proof : List NsHash}
+    {start size offset : Nat} {h : NsHash} {lv' pf' : List NsHash} {L : List NsHash},
+    IsLeafOn H S x → (∀ p ∈ proof, p.WF) → AllLeafOn H S L →
+    (∀ y ∈ innerInputs H ign fuel [x] proof start size offset, S y) → (∀ y ∈ perfectInputs H ign' (j + 1) L, S y) →
+    2 ≤ size → size ≤ 2 ^ j →
+    checkRangeProofInner H ign fuel [x] proof start size offset = .ok (h, lv', pf') →
+    perfectRoot H ign' (j + 1) L = .ok h → False := by
+  intro fuel
+  induction fuel with
+  | zero => intro j x proof start size offset h lv' pf' L _ _ _ _ _ _ _ e; simp [checkRangeProofInner] at e
+  | succ f ih =>
+    intro j x proof start size offset h lv' pf' L lx wp al hV hT h2 hsz e pr
+    obtain ⟨m, hm, hlt, hle⟩ := nextSmallerPo2_spec size h2
+    obtain ⟨l, r, hl, hr, hn', hPI⟩ := perfectInputs_succ pr
+    have hTn : S (nodeInput l r) := hT _ (by rw [hPI]; simp)
+    have hTl : ∀ y ∈ perfectInputs H ign' j (L.take (2 ^ j)), S y := fun y hy => hT y (by rw [hPI]; simp [hy])
+    have hTr : ∀ y ∈ perfectInputs H ign' j (L.drop (2 ^ j)), S y := fun y hy => hT y (by rw [hPI]; simp [hy])
+    have wl := perfectRoot_WF hk.hlen j (al.take _).allLeaf hl
+    have wr := perfectRoot_WF hk.hlen j (al.drop _).allLeaf hr
+    have hmj : m < j := (Nat.pow_lt_pow_iff_right (by omega)).mp (Nat.lt_of_lt_of_le hlt hsz)
+    obtain ⟨j', rfl⟩ : ∃ j', j = j' + 1 := ⟨j - 1, by omega⟩
+    have hmle : 2 ^ m ≤ 2 ^ j' := Nat.pow_le_pow_right (by omega) (by omega)
+    rcases inner_single_step e _ hm.symm with ⟨hge, right, lv1, pf1, sib, hrr, htl, hn, _⟩ | ⟨hlt2, sib, pf1, left, htl, hll, hn⟩
+    · have hpf1 := takeLast?_some htl
+      have hI := innerInputs_single_right _ hm.symm hge hrr htl hn
+      have hVn : S (nodeInput sib right) := hV _ (by rw [hI]; simp)
+      rcases hrr with ⟨_, rfl, _, rfl⟩ | ⟨hne, hrec⟩
+      · have wsib : sib.WF := wp sib (by rw [hpf1]; simp)
+        obtain ⟨_, rfl⟩ := hashNodes_hash_inj_on hk.inj wsib (lx.WF hk.hlen) wl wr hn hn' hVn hTn rfl
+        obtain ⟨ns, d, _, rfl, hS⟩ := lx
+        exact perfectRoot_succ_ne_leaf_on hk.inj hS hTr hr
+      · have hVr : ∀ y ∈ innerInputs H ign f [x] proof start (size - 2 ^ m) (offset + 2 ^ m), S y :=
+          fun y hy => hV y (by rw [hI]; simp [hne, hy])
+        obtain ⟨wright, wpf1⟩ := inner_single_WF hk.hlen f hrec (lx.WF hk.hlen) wp
+        have wsib : sib.WF := wpf1 sib (by rw [hpf1]; simp)
+        obtain ⟨_, rfl⟩ := hashNodes_hash_inj_on hk.inj wsib wright wl wr hn hn' hVn hTn rfl
+        exact ih j' lx wp (al.drop _) hVr hTr (by omega) (by omega) hrec hr
+    · have hpf := takeLast?_some htl
+      have hI := innerInputs_single_left _ hm.symm hlt2 htl hll hn
+      have hVn : S (nodeInput left sib) := hV _ (by rw [hI]; simp)
+      have wsib : sib.WF := wp sib (by rw [hpf]; simp)
+      have wpf1 : ∀ p ∈ pf1, p.WF := fun p hp => wp p (by rw [hpf]; simp [hp])
+      rcases hll with ⟨_, rfl, _, rfl⟩ | ⟨hne, hrec⟩
+      · obtain ⟨rfl, _⟩ := hashNodes_hash_inj_on hk.inj (lx.WF hk.hlen) wsib wl wr hn hn' hVn hTn rfl
+        obtain ⟨ns, d, _, rfl, hS⟩ := lx
+        exact perfectRoot_succ_ne_leaf_on hk.inj hS hTl hl
+      · have hVl : ∀ y ∈ innerInputs H ign f [x] pf1 start (2 ^ m) offset, S y :=
+          fun y hy => hV y (by rw [hI]; simp [hne, hy])
+        obtain ⟨wleft, _⟩ := inner_single_WF hk.hlen f hrec (lx.WF hk.hlen) wpf1
+        obtain ⟨rfl, _⟩ := hashNodes_hash_inj_on hk.inj wleft wsib wl wr hn hn' hVn hTn rfl
+        have : 2 ≤ 2 ^ m := by
+          have : 1 ≤ 2 ^ m := Nat.one_le_two_pow
+          omega
+        exact ih j' lx wpf1 (al.take _) hVl hTl this hmle hrec hl
+
+theorem inner_single_perfect_on {H : HashFn} {S : Bytes → Prop} (hk : HashOKOn H S) {ign ign' : Bool} : ∀ (fuel m j : Nat) {x : NsHash} {proof : List NsHash}
+    {start offset : Nat} {h : NsHash} {lv' pf' : List NsHash} {L : List NsHash},
+    IsLeafOn H S x → (∀ p ∈ proof, p.WF) → AllLeafOn H S L →
+    (∀ y ∈ innerInputs H ign fuel [x] proof start (2 ^ (m + 1)) offset, S y) → (∀ y ∈ perfectInputs H ign' j L, S y) → offset ≤ start → start < offset + 2 ^ (m + 1) →
+    checkRangeProofInner H ign fuel [x] proof start (2 ^ (m + 1)) offset = .ok (h, lv', pf') →
+    perfectRoot H ign' j L = .ok h → j = m + 1 ∧ L[start - offset]? = some x := by
+  intro fuel
+  induction fuel with
+  | zero => intro m j x proof start offset h lv' pf' L _ _ _ _ _ _ _ e; simp [checkRangeProofInner] at e
+  | succ f ih =>
+    intro m j x proof start offset h lv' pf' L lx wp al hV hT hos hlt e pr
+    have hstep := inner_single_step e _ (nextSmallerPo2_pow m).symm
+    have hsub : 2 ^ (m + 1) - 2 ^ m = 2 ^ m := by rw [Nat.pow_succ]; omega
+    rw [hsub] at hstep
+    -- the real tree is not a single leaf
+    cases j with
+    | zero =>
+      exfalso
+      have hL := perfectRoot_zero pr
+      obtain ⟨ns, d, _, rfl, hS⟩ := al h (by rw [hL]; simp)
+      rcases hstep with ⟨hge, right, lv1, pf1, sib, hrr, htl, hn, _⟩ | ⟨hlt2, sib, pf1, left, htl, hll, hn⟩
+      · have hI := innerInputs_single_right _ (nextSmallerPo2_pow m).symm hge (by rw [hsub]; exact hrr) htl hn
+        exact leaf_ne_node_on hk.inj hn hS (hV _ (by rw [hI]; simp)) rfl
+      · have hI := innerInputs_single_left _ (nextSmallerPo2_pow m).symm hlt2 htl hll hn
+        exact leaf_ne_node_on hk.inj hn hS (hV _ (by rw [hI]; simp)) rfl
+    | succ j' =>
+      obtain ⟨l, r, hl, hr, hn', hPI⟩ := perfectInputs_succ pr
+      have hTn : S (nodeInput l r) := hT _ (by rw [hPI]; simp)
+      have hTl : ∀ y ∈ perfectInputs H ign' j' (L.take (2 ^ j')), S y := fun y hy => hT y (by rw [hPI]; simp [hy])
+      have hTr : ∀ y ∈ perfectInputs H ign' j' (L.drop (2 ^ j')), S y := fun y hy => hT y (by rw [hPI]; simp [hy])
+      have wl := perfectRoot_WF hk.hlen j' (al.take _).allLeaf hl
+      have wr := perfectRoot_WF hk.hlen j' (al.drop _).allLeaf hr
+      have hlenL := perfectRoot_length j' hl
+      rcases hstep with ⟨hge, right, lv1, pf1, sib, hrr, htl, hn, _⟩ | ⟨hlt2, sib, pf1, left, htl, hll, hn⟩
+      · have hpf1 := takeLast?_some htl
+        have hI := innerInputs_single_right _ (nextSmallerPo2_pow m).symm hge (by rw [hsub]; exact hrr) htl hn
+        rw [hsub] at hI
+        have hVn : S (nodeInput sib right) := hV _ (by rw [hI]; simp)
+        rcases hrr with ⟨h1, rfl, _, rfl⟩ | ⟨hne, hrec⟩
+        · have wsib : sib.WF := wp sib (by rw [hpf1]; simp)
+          obtain ⟨_, rfl⟩ := hashNodes_hash_inj_on hk.inj wsib (lx.WF hk.hlen) wl wr hn hn' hVn hTn rfl
+          have hm0 : m = 0 := by
+            cases m with
+            | zero => rfl
+            | succ m' => have := two_le_two_pow_succ m'; omega
+          subst hm0
+          cases j' with
+          | succ j'' => obtain ⟨ns, d, _, rfl, hS⟩ := lx; exact (perfectRoot_succ_ne_leaf_on hk.inj hS hTr hr).elim
+          | zero =>
+            refine ⟨rfl, ?_⟩
+            have hd := perfectRoot_zero hr
+            have : start - offset = 1 := by simp at hlt hge; omega
+            rw [this]
+            have : (L.drop (2 ^ 0))[0]? = some right := by rw [hd]; rfl
+            simpa using this
+        · obtain ⟨wright, wpf1⟩ := inner_single_WF hk.hlen f hrec (lx.WF hk.hlen) wp
+          have wsib : sib.WF := wpf1 sib (by rw [hpf1]; simp)
+          obtain ⟨_, rfl⟩ := hashNodes_hash_inj_on hk.inj wsib wright wl wr hn hn' hVn hTn rfl
+          obtain ⟨m', rfl⟩ : ∃ m', m = m' + 1 := by
+            cases m with
+            | zero => simp at hne
+            | succ m' => exact ⟨m', rfl⟩
+          have hlt' : start < offset + 2 ^ (m' + 1) + 2 ^ (m' + 1) := by
+            have : 2 ^ (m' + 1 + 1) = 2 ^ (m' + 1) + 2 ^ (m' + 1) := by rw [Nat.pow_succ]; omega
+            omega
+          obtain ⟨hj, hx⟩ := ih m' j' lx wp (al.drop _) (fun y hy => hV y (by rw [hI]; simp [hne, hy])) hTr (by omega) hlt' hrec hr
+          subst hj
+          refine ⟨rfl, ?_⟩
+          rw [List.getElem?_drop] at hx
+          have : 2 ^ (m' + 1) + (start - (offset + 2 ^ (m' + 1))) = start - offset := by omega
+          rw [this] at hx; exact hx
+      · have hpf := takeLast?_some htl
+        have hI := innerInputs_single_left _ (nextSmallerPo2_pow m).symm hlt2 htl hll hn
+        have hVn : S (nodeInput left sib) := hV _ (by rw [hI]; simp)
+        have wsib : sib.WF := wp sib (by rw [hpf]; simp)
+        have wpf1 : ∀ p ∈ pf1, p.WF := fun p hp => wp p (by rw [hpf]; simp [hp])
+        rcases hll with ⟨h1, rfl, _, rfl⟩ | ⟨hne, hrec⟩
+        · obtain ⟨rfl, _⟩ := hashNodes_hash_inj_on hk.inj (lx.WF hk.hlen) wsib wl wr hn hn' hVn hTn rfl
+          have hm0 : m = 0 := by
+            cases m with
+            | zero => rfl
+            | succ m' => have := two_le_two_pow_succ m'; omega
+          subst hm0
+          cases j' with
+          | succ j'' => obtain ⟨ns, d, _, rfl, hS⟩ := lx; exact (perfectRoot_succ_ne_leaf_on hk.inj hS hTl hl).elim
+          | zero =>
+            refine ⟨rfl, ?_⟩
+            have hd := perfectRoot_zero hl
+            have : start - offset = 0 := by simp at hlt2; omega
+            rw [this]
+            have : (L.take (2 ^ 0))[0]? = some left := by rw [hd]; rfl
+            rw [List.getElem?_take] at this
+            simpa using this
+        · obtain ⟨wleft, _⟩ := inner_single_WF hk.hlen f hrec (lx.WF hk.hlen) wpf1
+          obtain ⟨rfl, _⟩ := hashNodes_hash_inj_on hk.inj wleft wsib wl wr hn hn' hVn hTn rfl
+          obtain ⟨m', rfl⟩ : ∃ m', m = m' + 1 := by
+            cases m with
+            | zero => simp at hne
+            | succ m' => exact ⟨m', rfl⟩
+          obtain ⟨hj, hx⟩ := ih m' j' lx wpf1 (al.take _) (fun y hy => hV y (by rw [hI]; simp [hne, hy])) hTl hos (by omega) hrec hl
+          subst hj
+          refine ⟨rfl, ?_⟩
+          rw [List.getElem?_take] at hx
+          split at hx
+          · exact hx
+          · cases hx
+
+
+/-- general verifier subtree against a perfect real tree, the requested index inside the real tree:
+    the leaf sits at its index -/
+theorem inner_single_general_on {H : HashFn} {S : Bytes → Prop} (hk : HashOKOn H S) {ign ign' : Bool} : ∀ (fuel j : Nat) {x : NsHash} {proof : List NsHash}
+    {start size offset : Nat} {h : NsHash} {lv' pf' : List NsHash} {L : List NsHash},
+    IsLeafOn H S x → (∀ p ∈ proof, p.WF) → AllLeafOn H S L →
+    (∀ y ∈ innerInputs H ign fuel [x] proof start size offset, S y) → (∀ y ∈ perfectInputs H ign' j L, S y) → 2 ≤ size → offset ≤ start → start < offset + 2 ^ j →
+    checkRangeProofInner H ign fuel [x] proof start size offset = .ok (h, lv', pf') →
+    perfectRoot H ign' j L = .ok h → L[start - offset]? = some x := by
+  intro fuel
+  induction fuel with
+  | zero => intro j x proof start size offset h lv' pf' L _ _ _ _ _ _ _ _ e; simp [checkRangeProofInner] at e
+  | succ f ih =>
+    intro j x proof start size offset h lv' pf' L lx wp al hV hT h2 hos hlt e pr
+    obtain ⟨m, hm, hmlt, hmle⟩ := nextSmallerPo2_spec size h2
+    have hstep := inner_single_step e _ hm.symm
+    cases j with
+    | zero =>
+      exfalso
+      have hL := perfectRoot_zero pr
+      obtain ⟨ns, d, _, rfl, hS⟩ := al h (by rw [hL]; simp)
+      rcases hstep with ⟨hge, right, lv1, pf1, sib, hrr, htl, hn, _⟩ | ⟨hlt2, sib, pf1, left, htl, hll, hn⟩
+      · have hI := innerInputs_single_right _ hm.symm hge hrr htl hn
+        exact leaf_ne_node_on hk.inj hn hS (hV _ (by rw [hI]; simp)) rfl
+      · have hI := innerInputs_single_left _ hm.symm hlt2 htl hll hn
+        exact leaf_ne_node_on hk.inj hn hS (hV _ (by rw [hI]; simp)) rfl
+    | succ j' =>
+      obtain ⟨l, r, hl, hr, hn', hPI⟩ := perfectInputs_succ pr
+      have hTn : S (nodeInput l r) := hT _ (by rw [hPI]; simp)
+      have hTl : ∀ y ∈ perfectInputs H ign' j' (L.take (2 ^ j')), S y := fun y hy => hT y (by rw [hPI]; simp [hy])
+      have hTr : ∀ y ∈ perfectInputs H ign' j' (L.drop (2 ^ j')), S y := fun y hy => hT y (by rw [hPI]; simp [hy])
+      have wl := perfectRoot_WF hk.hlen j' (al.take _).allLeaf hl
+      have wr := perfectRoot_WF hk.hlen j' (al.drop _).allLeaf hr
+      rcases hstep with ⟨hge, right, lv1, pf1, sib, hrr, htl, hn, _⟩ | ⟨hlt2, sib, pf1, left, htl, hll, hn⟩
+      · have hpf1 := takeLast?_some htl
+        have hI := innerInputs_single_right _ hm.symm hge hrr htl hn
+        have hVn : S (nodeInput sib right) := hV _ (by rw [hI]; simp)
+        -- 2^m ≤ start - offset < 2^(j'+1), hence m ≤ j'
+        have hmj : m ≤ j' := by
+          have : 2 ^ m < 2 ^ (j' + 1) := by omega
+          have := (Nat.pow_lt_pow_iff_right (by omega)).mp this
+          omega
+        rcases hrr with ⟨h1, rfl, _, rfl⟩ | ⟨hne, hrec⟩
+        · have wsib : sib.WF := wp sib (by rw [hpf1]; simp)
+          obtain ⟨_, rfl⟩ := hashNodes_hash_inj_on hk.inj wsib (lx.WF hk.hlen) wl wr hn hn' hVn hTn rfl
+          cases j' with
+          | succ j'' => obtain ⟨ns, d, _, rfl, hS⟩ := lx; exact (perfectRoot_succ_ne_leaf_on hk.inj hS hTr hr).elim
+          | zero =>
+            have hm0 : m = 0 := by omega
+            subst hm0
+            have hd := perfectRoot_zero hr
+            have : start - offset = 1 := by simp at hlt hge; omega
+            rw [this]
+            have : (L.drop (2 ^ 0))[0]? = some right := by rw [hd]; rfl
+            simpa using this
+        · obtain ⟨wright, wpf1⟩ := inner_single_WF hk.hlen f hrec (lx.WF hk.hlen) wp
+          have wsib : sib.WF := wpf1 sib (by rw [hpf1]; simp)
+          obtain ⟨_, rfl⟩ := hashNodes_hash_inj_on hk.inj wsib wright wl wr hn hn' hVn hTn rfl
+          by_cases hmeq : m = j'
+          · subst hmeq
+            have hlt' : start < offset + 2 ^ m + 2 ^ m := by
+              have : 2 ^ (m + 1) = 2 ^ m + 2 ^ m := by rw [Nat.pow_succ]; omega
+              omega
+            have hx := ih m lx wp (al.drop _) (fun y hy => hV y (by rw [hI]; simp [hne, hy])) hTr (by omega) (by omega) hlt' hrec hr
+            rw [List.getElem?_drop] at hx
+            have : 2 ^ m + (start - (offset + 2 ^ m)) = start - offset := by omega
+            rw [this] at hx; exact hx
+          · exfalso
+            obtain ⟨j'', rfl⟩ : ∃ j'', j' = j'' + 1 := ⟨j' - 1, by omega⟩
+            have : 2 ^ m ≤ 2 ^ j'' := Nat.pow_le_pow_right (by omega) (by omega)
+            exact inner_single_shallow_on hk f j'' lx wp (al.drop _) (fun y hy => hV y (by rw [hI]; simp [hne, hy])) hTr (by omega) (by omega) hrec hr
+      · have hpf := takeLast?_some htl
+        have hI := innerInputs_single_left _ hm.symm hlt2 htl hll hn
+        have hVn : S (nodeInput left sib) := hV _ (by rw [hI]; simp)
+        have wsib : sib.WF := wp sib (by rw [hpf]; simp)
+        have wpf1 : ∀ p ∈ pf1, p.WF := fun p hp => wp p (by rw [hpf]; simp [hp])
+        rcases hll with ⟨h1, rfl, _, rfl⟩ | ⟨hne, hrec⟩
+        · obtain ⟨rfl, _⟩ := hashNodes_hash_inj_on hk.inj (lx.WF hk.hlen) wsib wl wr hn hn' hVn hTn rfl
+          cases j' with
+          | succ j'' => obtain ⟨ns, d, _, rfl, hS⟩ := lx; exact (perfectRoot_succ_ne_leaf_on hk.inj hS hTl hl).elim
+          | zero =>
+            have hd := perfectRoot_zero hl
+            have : start - offset = 0 := by omega
+            rw [this]
+            have : (L.take (2 ^ 0))[0]? = some left := by rw [hd]; rfl
+            rw [List.getElem?_take] at this
+            simpa using this
+        · obtain ⟨wleft, _⟩ := inner_single_WF hk.hlen f hrec (lx.WF hk.hlen) wpf1
+          obtain ⟨rfl, _⟩ := hashNodes_hash_inj_on hk.inj wleft wsib wl wr hn hn' hVn hTn rfl
+          obtain ⟨m', rfl⟩ : ∃ m', m = m' + 1 := by
+            cases m with
+            | zero => simp at hne
+            | succ m' => exact ⟨m', rfl⟩
+          obtain ⟨hj, hx⟩ := inner_single_perfect_on hk f m' j' lx wpf1 (al.take _) (fun y hy => hV y (by rw [hI]; simp [hne, hy])) hTl hos (by omega) hrec hl
+          rw [List.getElem?_take] at hx
+          split at hx
+          · exact hx
+          · cases hx
+
+
+
+theorem rootInputs_perfect {H : HashFn} {ign : Bool} : ∀ (j fuel : Nat) (L : List NsHash),
+    L.length = 2 ^ j → 2 ^ j < fuel → rootInputs H ign fuel L = perfectInputs H ign j L := by
+  intro j
+  induction j with
+  | zero =>
+    intro fuel L hl hf
+    match L, hl with
+    | [x], _ =>
+      cases fuel with
+      | zero => simp at hf
+      | succ f => simp [rootInputs, perfectInputs]
+  | succ j ih =>
+    intro fuel L hl hf
+    cases fuel with
+    | zero => simp at hf
+    | succ f =>
+      have h2 := two_le_two_pow_succ j
+      match L, hl with
+      | [], hl => simp at hl; omega
+      | [_], hl => simp at hl; omega
+      | a :: b :: rest, hl =>
+        conv => lhs; unfold rootInputs
+        simp only
+        rw [hl, nextSmallerPo2_pow]
+        have hp : 2 ^ (j + 1) = 2 ^ j + 2 ^ j := by rw [Nat.pow_succ]; omega
+        have h1 : ((a :: b :: rest).take (2 ^ j)).length = 2 ^ j := by rw [List.length_take, hl]; omega
+        have h3 : ((a :: b :: rest).drop (2 ^ j)).length = 2 ^ j := by rw [List.length_drop, hl]; omega
+        rw [ih f _ h1 (by omega), ih f _ h3 (by omega), computeRootAux_perfect j f _ h1 (by omega),
+          computeRootAux_perfect j f _ h3 (by omega)]
+        conv => rhs; unfold perfectInputs
+
+/-- **Position binding of single-leaf range proofs against perfect trees** under collision-freeness relative to the
+    inputs hashed by the verifier (`proofInputs`), by the honest root computation (`rootInputs`) and the leaf preimages. -/
+theorem checkRangeProof_single_sound_on {H : HashFn} {S : Bytes → Prop} (hk : HashOKOn H S) {ign ign' : Bool} {j : Nat} {L : List NsHash}
+    {root x : NsHash} {proof : List NsHash} {start : Nat}
+    (al : AllLeafOn H S L) (hl : L.length = 2 ^ j) (hroot : computeRoot H ign' L = .ok root)
+    (lx : IsLeafOn H S x) (wp : ∀ p ∈ proof, p.WF) (hs : start < 2 ^ j)
+    (hV : ∀ y ∈ proofInputs H ign [x] proof start, S y) (hT : ∀ y ∈ rootInputs H ign' (L.length + 1) L, S y)
+    (e : checkRangeProof H ign root [x] proof start = .ok ()) : L[start]? = some x := by
+  rw [computeRoot_perfect hl] at hroot
+  have hT' : ∀ y ∈ perfectInputs H ign' j L, S y := by
+    intro y hy; apply hT; rw [rootInputs_perfect j _ L hl (by omega)]; exact hy
+  unfold checkRangeProof at e
+  simp only [List.length_singleton, Nat.one_ne_zero, ↓reduceIte, true_and] at e
+  by_cases hp : proof.isEmpty = true
+  · simp only [hp, ↓reduceIte] at e
+    split at e
+    · rename_i hc
+      simp only [List.head?_cons, Bool.and_eq_true, beq_iff_eq, Option.some.injEq] at hc
+      obtain ⟨rfl, rfl⟩ := hc
+      cases j with
+      | zero => rw [perfectRoot_zero hroot]; rfl
+      | succ j' => obtain ⟨ns, d, _, rfl, hS⟩ := lx; exact (perfectRoot_succ_ne_leaf_on hk.inj hS hT' hroot).elim
+    · cases e
+  · simp only [hp, Bool.false_eq_true, ↓reduceIte] at e
+    split at e
+    · cases e
+    · rename_i hnl
+      have h11 : start + 1 - 1 = start := by omega
+      rw [h11] at e
+      cases hts : computeTreeSize (proof.length - computeNumLeftSiblings start) start with
+      | error er => simp [hts] at e
+      | ok treeSize =>
+        simp only [hts] at e
+        cases hin : checkRangeProofInner H ign treeSize [x] proof start treeSize 0 with
+        | error er => simp [hin] at e
+        | ok v =>
+          obtain ⟨computed, lv', pf'⟩ := v
+          simp only [hin] at e
+          split at e
+          · rename_i heq
+            have heq' : computed = root := by simpa using heq
+            subst heq'
+            have hsz : 2 ≤ treeSize := by
+              have hge := computeTreeSize_ge hts
+              by_cases h0 : start = 0
+              · subst h0
+                have hn0 : computeNumLeftSiblings 0 = 0 := rfl
+                rw [hn0] at hts
+                have : 1 ≤ proof.length := by
+                  cases proof with
+                  | nil => simp at hp
+                  | cons a b => simp
+                exact computeTreeSize_ge_two (by omega) hts
+              · omega
+            have hV' : ∀ y ∈ innerInputs H ign treeSize [x] proof start treeSize 0, S y := by
+              intro y hy; apply hV
+              unfold proofInputs
+              have hp' : ¬ (True ∧ proof.isEmpty = true) := by simp [hp]
+              simp only [List.length_singleton, Nat.one_ne_zero, ↓reduceIte, hp', hnl, h11, hts]
+              exact hy
+            have := inner_single_general_on hk treeSize j lx wp al hV' hT' hsz (Nat.zero_le _) (by omega) hin hroot
+            simpa using this
+          · cases e
+
+
+/-- one step of `compute_root` on at least two leaves, with the hashed inputs -/
+theorem rootInputs_cons2 {H : HashFn} {ign : Bool} {fuel : Nat} {a b : NsHash} {rest : List NsHash} {r : NsHash}
+    (e : computeRootAux H ign (fuel + 1) (a :: b :: rest) = .ok r) :
+    ∃ l rr, computeRootAux H ign fuel ((a :: b :: rest).take (nextSmallerPo2 (a :: b :: rest).length)) = .ok l ∧
+      computeRootAux H ign fuel ((a :: b :: rest).drop (nextSmallerPo2 (a :: b :: rest).length)) = .ok rr ∧
+      hashNodes H ign l rr = .ok r ∧
+      rootInputs H ign (fuel + 1) (a :: b :: rest) =
+        rootInputs H ign fuel ((a :: b :: rest).take (nextSmallerPo2 (a :: b :: rest).length)) ++
+        rootInputs H ign fuel ((a :: b :: rest).drop (nextSmallerPo2 (a :: b :: rest).length)) ++ [nodeInput l rr] := by
+  obtain ⟨l, rr, hl, hr, hn⟩ := computeRootAux_cons2 e
+  refine ⟨l, rr, hl, hr, hn, ?_⟩
+  conv => lhs; unfold rootInputs
+  simp only [hl, hr]
+
+/-- **The hash part of an NMT root determines the leaves** (relative collision-freeness) -/
+theorem computeRootAux_hash_inj_on {H : HashFn} {S : Bytes → Prop} (hk : HashOKOn H S) (hE : S []) {ign ign' : Bool} : ∀ (fuel fuel' : Nat) (L L' : List NsHash)
+    (r r' : NsHash), L.length < fuel → L'.length < fuel' → AllLeafOn H S L → AllLeafOn H S L' →
+    (∀ y ∈ rootInputs H ign fuel L, S y) → (∀ y ∈ rootInputs H ign' fuel' L', S y) →
+    computeRootAux H ign fuel L = .ok r → computeRootAux H ign' fuel' L' = .ok r' → r.hash = r'.hash → L = L' := by
+  intro fuel
+  induction fuel with
+  | zero => intro fuel' L L' r r' h; omega
+  | succ f ih =>
+    intro fuel' L L' r r' hf hf' al al' hT hT' e e' hh
+    obtain ⟨f', rfl⟩ : ∃ f', fuel' = f' + 1 := ⟨fuel' - 1, by omega⟩
+    match L, L', hf, hf', al, al', hT, hT', e, e' with
+    | [], [], _, _, _, _, _, _, _, _ => rfl
+    | [], [x'], _, _, _, al', _, _, e, e' =>
+      exfalso
+      simp [computeRootAux] at e e'
+      subst e; subst e'
+      obtain ⟨ns, d, _, hx, hS⟩ := al' x' (by simp)
+      rw [hx] at hh
+      exact emptyRoot_ne_leaf_on hk.inj hE hS hh
+    | [], a' :: b' :: rest', _, _, _, _, _, hT', e, e' =>
+      exfalso
+      simp [computeRootAux] at e
+      subst e
+      obtain ⟨l, rr, _, _, hn, hRI⟩ := rootInputs_cons2 e'
+      exact emptyRoot_ne_node_on hk.inj hn hE (hT' _ (by rw [hRI]; simp)) hh
+    | [x], [], _, _, al, _, _, _, e, e' =>
+      exfalso
+      simp [computeRootAux] at e e'
+      subst e; subst e'
+      obtain ⟨ns, d, _, hx, hS⟩ := al x (by simp)
+      rw [hx] at hh
+      exact emptyRoot_ne_leaf_on hk.inj hE hS hh.symm
+    | [x], [x'], _, _, al, al', _, _, e, e' =>
+      simp [computeRootAux] at e e'
+      subst e; subst e'
+      obtain ⟨ns, d, hl, hx, hS⟩ := al x (by simp)
+      obtain ⟨ns', d', hl', hx', hS'⟩ := al' x' (by simp)
+      rw [hx, hx'] at hh
+      obtain ⟨rfl, rfl⟩ := hashLeaf_inj_on hk.inj (by rw [hl, hl']) hS hS' hh
+      rw [hx, hx']
+    | [x], a' :: b' :: rest', _, _, al, _, _, hT', e, e' =>
+      exfalso
+      simp [computeRootAux] at e
+      subst e
+      obtain ⟨ns, d, _, hx, hS⟩ := al x (by simp)
+      rw [hx] at hh
+      obtain ⟨l, rr, _, _, hn, hRI⟩ := rootInputs_cons2 e'
+      exact leaf_ne_node_on hk.inj hn hS (hT' _ (by rw [hRI]; simp)) hh
+    | a :: b :: rest, [], _, _, _, _, hT, _, e, e' =>
+      exfalso
+      simp [computeRootAux] at e'
+      subst e'
+      obtain ⟨l, rr, _, _, hn, hRI⟩ := rootInputs_cons2 e
+      exact emptyRoot_ne_node_on hk.inj hn hE (hT _ (by rw [hRI]; simp)) hh.symm
+    | a :: b :: rest, [x'], _, _, _, al', hT, _, e, e' =>
+      exfalso
+      simp [computeRootAux] at e'
+      subst e'
+      obtain ⟨ns, d, _, hx, hS⟩ := al' x' (by simp)
+      rw [hx] at hh
+      obtain ⟨l, rr, _, _, hn, hRI⟩ := rootInputs_cons2 e
+      exact leaf_ne_node_on hk.inj hn hS (hT _ (by rw [hRI]; simp)) hh.symm
+    | a :: b :: rest, a' :: b' :: rest', hf, hf', al, al', hT, hT', e, e' =>
+      obtain ⟨l, rr, hl, hr, hn, hRI⟩ := rootInputs_cons2 e
+      obtain ⟨l', rr', hl', hr', hn', hRI'⟩ := rootInputs_cons2 e'
+      have wl := computeRootAux_WF hk.hlen _ (AllLeaf.allWF hk.hlen (al.take _).allLeaf) hl
+      have wr := computeRootAux_WF hk.hlen _ (AllLeaf.allWF hk.hlen (al.drop _).allLeaf) hr
+      have wl' := computeRootAux_WF hk.hlen _ (AllLeaf.allWF hk.hlen (al'.take _).allLeaf) hl'
+      have wr' := computeRootAux_WF hk.hlen _ (AllLeaf.allWF hk.hlen (al'.drop _).allLeaf) hr'
+      obtain ⟨rfl, rfl⟩ := hashNodes_hash_inj_on hk.inj wl wr wl' wr' hn hn' (hT _ (by rw [hRI]; simp)) (hT' _ (by rw [hRI']; simp)) hh
+      obtain ⟨m, hm, hmlt, _⟩ := nextSmallerPo2_spec (a :: b :: rest).length (by simp)
+      obtain ⟨m', hm', hmlt', _⟩ := nextSmallerPo2_spec (a' :: b' :: rest').length (by simp)
+      have h1 := ih f' _ _ _ _ (by rw [List.length_take]; omega) (by rw [List.length_take]; omega)
+        (al.take _) (al'.take _) (fun y hy => hT y (by rw [hRI]; exact List.mem_append_left _ (List.mem_append_left _ hy)))
+        (fun y hy => hT' y (by rw [hRI']; exact List.mem_append_left _ (List.mem_append_left _ hy))) hl hl' rfl
+      have h2 := ih f' _ _ _ _ (by rw [List.length_drop]; omega) (by rw [List.length_drop]; omega)
+        (al.drop _) (al'.drop _) (fun y hy => hT y (by rw [hRI]; exact List.mem_append_left _ (List.mem_append_right _ hy)))
+        (fun y hy => hT' y (by rw [hRI']; exact List.mem_append_left _ (List.mem_append_right _ hy))) hr hr' rfl
+      rw [← List.take_append_drop (nextSmallerPo2 (a :: b :: rest).length) (a :: b :: rest),
+        ← List.take_append_drop (nextSmallerPo2 (a' :: b' :: rest').length) (a' :: b' :: rest'), h1, h2]
+
+theorem computeRoot_hash_inj_on {H : HashFn} {S : Bytes → Prop} (hk : HashOKOn H S) (hE : S []) {ign ign' : Bool} {L L' : List NsHash} {r r' : NsHash}
+    (al : AllLeafOn H S L) (al' : AllLeafOn H S L')
+    (hT : ∀ y ∈ rootInputs H ign (L.length + 1) L, S y) (hT' : ∀ y ∈ rootInputs H ign' (L'.length + 1) L', S y) (e : computeRoot H ign L = .ok r) (e' : computeRoot H ign' L' = .ok r')
+    (hh : r.hash = r'.hash) : L = L' :=
+  computeRootAux_hash_inj_on hk hE _ _ L L' r r' (by omega) (by omega) al al' hT hT' e e' hh
+
+
+
 end Lumina.Proofs.Nmt
